@@ -155,7 +155,7 @@ func main() {
 		return
 	}
 	if os.Getenv("C09_ONLY") == "derive" { // development aid: the call-derivation searcher alone
-		runDerive(lib.NewRNG(f.Seed).Fork(), f.Scale(400, 12000))
+		runDerive(lib.NewRNG(f.Seed).Fork(), f.Scale(400, 12000), f.Thorough())
 		res.Write(f.Out)
 		return
 	}
@@ -166,7 +166,7 @@ func main() {
 	srng := lib.NewRNG(f.Seed)
 	runShapes(srng.Fork(), f.Scale(2, 6))
 	runExports(srng.Fork(), f.Scale(150, 3000))
-	runDerive(srng.Fork(), f.Scale(400, 12000))
+	runDerive(srng.Fork(), f.Scale(400, 12000), f.Thorough())
 	rng := lib.NewRNG(f.Seed)
 	nSeq := f.Scale(3000, 60000)
 	for i := 0; i < nSeq; i++ {
